@@ -37,7 +37,7 @@ from .. import facts as F
 
 PROP = 'C02'
 from . import lemmas as _lemmas
-LEMMAS = [_lemmas.PROTOCOL, _lemmas.SOLVE, _lemmas.BCROWS]
+LEMMAS = [_lemmas.PROTOCOL, _lemmas.SOLVE, _lemmas.BCROWS, _lemmas.PURITY]
 RULES = {'K1': 'limit of the discrete operator on smooth fields == documented continuous operator (generic cell, graded spacing)',
          'K2': 'boundary relation and time discretisation exact (C03.B2, C12.T1)',
          'K3': 'boundary-face flux functional has the leading order of the interior-face functional',
